@@ -21,7 +21,9 @@ import (
 
 	dtpb "github.com/google/fhir/go/proto/google/fhir/proto/r4/core/datatypes_go_proto"
 	bcrpb "github.com/google/fhir/go/proto/google/fhir/proto/r4/core/resources/bundle_and_contained_resource_go_proto"
+	orgpb "github.com/google/fhir/go/proto/google/fhir/proto/r4/core/resources/organization_go_proto"
 	ppb "github.com/google/fhir/go/proto/google/fhir/proto/r4/core/resources/patient_go_proto"
+	perpb "github.com/google/fhir/go/proto/google/fhir/proto/r4/core/resources/person_go_proto"
 	"github.com/shopspring/decimal"
 	"google.golang.org/protobuf/types/known/anypb"
 	"github.com/verily-src/fhirpath-go/fhirpath"
@@ -167,7 +169,28 @@ func runC01(c *Ctx) {
 			c.Law(!o.Panicked && !o.TimedOut, "C01/evaluate-panic", "Evaluate returns a collection or an error", src+" with OverrideTime("+tm.String()+")", o.PanicMsg)
 		}
 	}
+	// date / time arithmetic over month ends, leap days and the year boundary, in both directions
+	for _, d := range []string{"@2021-01-31", "@2021-03-31", "@2021-05-31T10:00:00", "@2020-02-29", "@2021-12-31", "@9999-12-31", "@0001-01-31", "@2021-01-30", "@2021-03-29T23:59:59.999+14:00", "@2021-01", "@2021", "@T23:59:59", "@T00:00"} {
+		for _, n := range []string{"1", "2", "6", "11", "12", "13", "14", "25", "1200", "0", "-1", "-13", "1.5", "2147483647"} {
+			for _, u := range []string{"months", "years", "days", "weeks", "hours", "minutes", "'mo'", "'a'", "'d'", "'wk'", "milliseconds", "seconds"} {
+				for _, op := range []string{"+", "-"} {
+					src := d + " " + op + " " + n + " " + u
+					if strings.HasPrefix(n, "-") {
+						src = d + " " + op + " (" + n + " " + u + ")"
+					}
+					run("date-arith", src, input)
+				}
+			}
+		}
+	}
 	envShapes := map[string]any{
+		"emptyContained": &bcrpb.ContainedResource{},
+		"containedPatient": &bcrpb.ContainedResource{OneofResource: &bcrpb.ContainedResource_Patient{Patient: &ppb.Patient{}}},
+		"emptyBundleEntry": &bcrpb.Bundle_Entry{Resource: &bcrpb.ContainedResource{}},
+		"emptyExtension":   &dtpb.Extension{Value: &dtpb.Extension_ValueX{}},
+		"precisionlessDateTime": &dtpb.DateTime{ValueUs: 1600000000000000, Timezone: "+05:30"},
+		"precisionlessDate":     &dtpb.Date{ValueUs: 1600000000000000},
+		"emptyReference":        &dtpb.Reference{},
 		"nested":      system.Collection{system.Collection{system.Integer(1)}},
 		"nested2":     system.Collection{system.Integer(1), system.Collection{system.Collection{}}},
 		"emptyInside": system.Collection{system.Collection{}},
@@ -381,6 +404,31 @@ func runC01(c *Ctx) {
 					c.Observe(fmt.Sprintf("patch %s %s %s %T", op, n, p, v), false)
 					c.Law(!pan, "C01/patch-panic", "every FHIRPatch call returns nil or an error", fmt.Sprintf("%s on %s at %s value=%T", op, n, p, v), msg)
 				}
+			}
+		}
+	}
+	// values of a sibling type with the same short name (components of other resources), and values of
+	// every primitive kind, against paths of many kinds
+	sameName := []fhir.Base{&orgpb.Organization_Contact{}, &perpb.Person_Link{}, &perpb.Person_GenderCode{}, &orgpb.Organization_Contact{Purpose: &dtpb.CodeableConcept{}}, &dtpb.Address_UseCode{}, &dtpb.ContactPoint_UseCode{},
+		&dtpb.Uri{Value: "u"}, &dtpb.Id{Value: "i"}, &dtpb.Markdown{Value: "m"}, &dtpb.PositiveInt{Value: 1}, &dtpb.UnsignedInt{Value: 1}, &dtpb.DateTime{}, &dtpb.Instant{}, &dtpb.Time{}, &dtpb.Base64Binary{}, &dtpb.Reference{}, &dtpb.Extension{}, &dtpb.Coding{}, &dtpb.Period{}}
+	for _, v := range sameName {
+		for _, tgt := range []struct{ path, name string }{{"Patient", "contact"}, {"Patient", "link"}, {"Patient", "gender"}, {"Patient", "address"}, {"Patient", "telecom"}, {"Patient.contact[0]", "gender"}, {"Patient.name[0]", "use"}, {"Patient", "birthDate"}, {"Patient", "deceased"}, {"Patient", "extension"}, {"Patient", "managingOrganization"}, {"Patient.name[0]", "period"}} {
+			for _, op := range []string{"add", "replace", "insert"} {
+				res := mustResource(`{"resourceType":"Patient","id":"p","gender":"male","name":[{"family":"S","use":"official"}],"contact":[{"gender":"female"}],"link":[{"other":{"reference":"Patient/2"},"type":"seealso"}],"address":[{"use":"home"}],"telecom":[{"use":"home"}]}`)
+				_, pan, msg := safeErr(func() error {
+					switch op {
+					case "add":
+						_ = patch.Add(res, tgt.path, tgt.name, v, &patch.Options{})
+					case "replace":
+						_ = patch.Replace(res, tgt.path+"."+tgt.name, v)
+						_ = patch.Replace(res, tgt.path+"."+tgt.name+"[0]", v)
+					case "insert":
+						_ = patch.Insert(res, tgt.path+"."+tgt.name, v, 0)
+					}
+					return nil
+				})
+				c.Observe(fmt.Sprintf("patch-sibling %s %s.%s %T", op, tgt.path, tgt.name, v), false)
+				c.Law(!pan, "C01/patch-panic", "every FHIRPatch call returns nil or an error", fmt.Sprintf("%s %s.%s value=%T", op, tgt.path, tgt.name, v), msg)
 			}
 		}
 	}
